@@ -2,7 +2,7 @@
 # lib/seedkeep.sh <seeddir> <name> <ID> [tier]  : confirm the seeded change, run the property's check on it, and file it
 # under /verif/seeded/<name>/ with meta.json recording what was run and what the check said.
 set -u
-seed=$(readlink -f "$1"); name=$2; id=$3; tier=${4:-quick}
+seed=$(readlink -f "$1"); name=$2; id=$3; tier=${4:-quick}; note=${5:-}
 out=$(mktemp)
 /verif/lib/seed.sh confirm "$seed" > "$out" 2>&1
 if ! grep -q "^CONFIRMED" "$out"; then cat "$out"; echo "NOT KEPT: confirmation failed"; rm -f "$out"; exit 1; fi
@@ -14,10 +14,19 @@ mkdir -p /verif/seeded/$name
 cp "$seed"/patch.diff /verif/seeded/$name/
 demo=$(python3 -c "import json;print(json.load(open('$seed/meta.json'))['demo_file'])")
 cp "$seed/$(basename "$demo")" /verif/seeded/$name/
-python3 - "$seed/meta.json" "/verif/seeded/$name/meta.json" "$id" "$tier" "$rc" "$conf" "$first" <<'P'
-import json,sys
-src,dst,pid,tier,rc,conf,first=sys.argv[1:8]
+python3 - "$seed/meta.json" "/verif/seeded/$name/meta.json" "$id" "$tier" "$rc" "$conf" "$first" "$note" <<'P'
+import json,sys,os
+src,dst,pid,tier,rc,conf,first,note=sys.argv[1:9]
 m=json.load(open(src))
+if os.path.exists(dst):
+    old=json.load(open(dst))
+    m['check_runs']=old.get('check_runs',[])
+    m['history']=old.get('history',[])
+    for r in m['check_runs']:
+        if r['check']==pid and r['tier']==tier and not r['detected'] and rc=='1':
+            m['history'].append('first run of ./check %s %s MISSED this change (exit 0)'%(pid,tier))
+if note:
+    m.setdefault('history',[]).append(note)
 m['breaks_property']=m.get('property',pid)
 m['confirmed']=conf
 m.setdefault('check_runs',[])
